@@ -14,7 +14,7 @@ def sim(text, ref, oracle, note=SIG_NOTE):
 CLAIMED = {
  "C19": sim("Real signaling Client against a scripted hostile relay that injects forged, tampered, re-attributed, cross-context, unsigned and replayed messages and unsolicited control messages at arbitrary points of the client's retry/receive schedule; every message the application receives must carry content the harness signed with the peer's key for this recipient.",
             "5 (C19)", "authenticity by membership in the harness-made honest pool (never bifrost's own verifier)"),
- "C20": sim("Real relay Server against scripted clients that submit foreign-signed, tampered, wrong-context, unsigned, stale-epoch and future-epoch requests, a re-used signature with a new payload right after the honest message it came from, unsolicited acks/clears, requests before Init and bad Inits, interleaved with honest traffic, session replacement and stream resets; every RecvMsg the relay emits is checked against what the authenticated owner of the partner stream really signed and submitted, and against the announced epochs.",
+ "C20": sim("Real relay Server against scripted clients that submit foreign-signed, tampered, wrong-context, unsigned, stale-epoch and future-epoch requests, a re-used signature with a new payload right after the honest message it came from, a message signed by the stream's partner, unsolicited acks/clears, requests before Init and bad Inits, interleaved with honest traffic, session replacement and stream resets; every RecvMsg the relay emits is checked against what the authenticated owner of the partner stream really signed and submitted, and against the announced epochs.",
             "5 (C20)", "per-emission invariant against harness ground truth + quiescence rule for future epochs"),
  "C21": sim("Real Server and 2-3 real Clients; sends, cancellations, peer references released and re-added (message numbering restarts), stream resets, relay crash-restart (session epochs restart), and (in a separate lossy configuration) dropped/duplicated wire messages; at the instant a Send returns nil the destination application must already have received exactly that signed message.",
             "5 (C21)", "trace validation at completion events (success implies earlier byte-equal delivery)"),
@@ -35,7 +35,7 @@ CLAIMED = {
             "5 (C31)", "porcupine linearizability of the recorded history + invariants", "Trusts porcupine v1.3.0 and the hook placement."),
  "C33": sim("Real hold-open controller and handler against a fake directive instance with exact strong-reference accounting; value-added/removed callbacks for 1-3 links overlap across links (never reordered within one link) and the asynchronous reference acquisition lands at a driver-chosen later point, the handler's own goroutine starts (acquire, release) are scheduling points; at quiescence a strong reference is held iff links exist.",
             "5 (C33)", "equivalence (refs>0 iff links>0) at quiescence", "Trusts the fake directive.Instance as a faithful stand-in for controllerbus reference counting; callbacks of one value are serialized as a real bus does."),
- "C39": sim("Real key-file loader against a scratch directory that the simulator puts into every state a crash during the non-atomic, non-fsynced write (any prefix, empty, missing) or an operator (garbage, other PEM types, directory, path below a file, symlink loop, dangling symlink, over-long name, missing parent directory, dangling symlink into a missing directory; read-only directory and mode-000 file when not running as root) can leave; sequences of loads and faults from the tape; every load must return a usable key or an error, identities must be stable across reloads, and the CLI path that relies on the key file (envelope unseal) must fail on a non-key file and name it.",
+ "C39": sim("Real key-file loader against a scratch directory that the simulator puts into every state a crash during the non-atomic, non-fsynced write (any prefix, empty, missing) or an operator (garbage, other PEM types, directory, path below a file, symlink loop, dangling symlink, over-long name, missing parent directory, key material with stray trailing bytes under a correct PEM header, dangling symlink into a missing directory; read-only directory and mode-000 file when not running as root) can leave; sequences of loads and faults from the tape; every load must return a usable key or an error, identities must be stable across reloads, and the CLI path that relies on the key file (envelope unseal) must fail on a non-key file and name it.",
             "5 (C39)", "key-or-error invariant + identity stability against the file-state model", "Crash points are modelled on the resulting file content; no fault is injected inside os.ReadFile/os.WriteFile (no file-system seam). No concurrency dimension."),
 
  "C06": sim("One real bus with the real transport controller over a simlink transport; the harness plays the transport and issues establish / duplicate / same-UUID replacement / loss / duplicate loss / loss of unknown links as overlapping transport callbacks, the loss report owed after each system Close arrives at a driver-chosen later point, readers hold the controller lock while parked so that the TryLock fast path fails; at every quiescent point GetPeerLinks, watcher directive values and both internal tables must equal the per-object reference model (established and not yet lost), lost links must be closed, and a live link may only be closed for a cause. One run in twelve is the QUIC scenario: a listener and three dialers contending for one source address (address takeover fault, N restarted under the same identity, another identity on the same address), real quic.Transport + pconn + quic-go + TLS under the real controller over the simulated datagram network, dials in both directions, application Close, clock jumps beyond the idle timeout, packet faults; at every step with nothing parked the controller's tables, the transport's address table and the set of reported-and-not-closed links must agree.",
@@ -46,7 +46,7 @@ CLAIMED = {
  "C07": sim("Real opener (mountedLink.OpenMountedStream) and real receiver (HandleIncomingStream, header reader, protocol validation, handler lookup through the bus) joined by a simulator-owned byte stream with driver-chosen chunking; protocol IDs from 1 byte to the exact header limit (boundary-biased), payload written right behind the header; ten kinds of malformed or stalled headers written by the harness; valid headers must be dispatched exactly once with the written protocol ID and the link's peers and hand the handler exactly the payload, malformed ones must end in a closed stream without dispatch. A valid header that the driver itself delays beyond the 5 s establish deadline is treated as a stalled header.",
             "5 (C07)", "exact equality of protocol ID, peers and payload per stream + closed-without-dispatch for malformed input", "Trusts the simlink stub and its fake-clock read deadlines."),
 
- "C27": sim("A real FloodSub router with subscriptions, an honest scripted downstream peer that observes everything the router forwards and a scripted malicious peer that injects tampered, re-targeted, foreign-signed (with and without an embedded public key), same-signature-different-payload, cross-context, bare-context, prefix-channel-context, empty-channel, unsubscribed-channel and bit-flipped packets, plus a local subscribe-and-release inside one evaluation window, between honest ones; every handler callback and every forwarded message is checked against the set of (sender, channel, payload) triples the harness itself signed.",
+ "C27": sim("A real FloodSub router with subscriptions, an honest scripted downstream peer that observes everything the router forwards and a scripted malicious peer that injects tampered, re-targeted, foreign-signed (with and without an embedded public key), same-signature-different-payload, cross-context, bare-context, prefix-channel-context, one packet with a tampered message followed by a genuine one, empty-channel, unsubscribed-channel and bit-flipped packets, plus a local subscribe-and-release inside one evaluation window, between honest ones; every handler callback and every forwarded message is checked against the set of (sender, channel, payload) triples the harness itself signed.",
             "5 (C27)", "per-callback and per-forward membership in the harness-made honest pool"),
  "C28": sim("3-5 real FloodSub routers in a connected mesh drawn from the tape (line, star, ring, random); publishes from every node; link flaps under the same and under new link tuples, a pair of routers joined by two links at once, router crash and restart, chunked and stalled streams, clock jumps beyond the de-duplication window; no duplicate hand-over within the window, no message sent back to its publisher or to its only source (wire tap ordered by a global event sequence), and after the last fault one fresh message per node and channel is handed exactly once to every subscription reachable through subscribed routers. Router panics are violations.",
             "5 (C28)", "per-delivery counters + wire-tap ordering + exactly-once at reachable subscribers after stabilisation"),
@@ -61,7 +61,7 @@ CLAIMED = {
 
  "C03": sim("Three honest full nodes with the real pconn/QUIC transport, real TLS and quic-go over the simulator's datagram network, plus a harness-built forger endpoint presenting crafted certificate chains (valid control, copied extension, the victim's live extension replayed, no extension, corrupt ASN.1, wrong signer, two certificates, not self-signed, a valid own chain carrying the serial number of the victim's certificate); honest dials to one address with differing expected peers that overlap; honest dials under address rebinding, direct HandleConn dial/listen pairs with the expected peer empty, right or wrong; packet loss, duplication, reordering, corruption and clock jumps; every link any transport reports must name an identity that an endpoint which really sent the packets from the link's remote address can prove, a wrong expected peer must give an error and no link.",
             "5 (C03)", "invariant on every reported link against the packet network's ground truth", "Trusts go1.26.8 + six-file runtime overlay (seeded select/map/timer order, no time-slice preemption, mutex waits durably blocked, mutex starvation clock frozen) and build-time rewritten go statements (goroutine starts are scheduling points), testing/cryptotest for repeatable crypto randomness, and the simulated datagram network as a faithful net.PacketConn; quic-go and crypto/tls internals run real, their goroutine interleavings are repeated per seed, not explored. websocket and WebRTC front-ends are not run."),
- "C05": sim("Dialer node, wanted peer X and an impostor I on the QUIC world; the address of X is rebound to I and back before, during and after DialPeerAddr(X, addr) and EstablishLinkWithPeer(X) requests, with bounded packet faults, dial cancellation, overlapping dials of the same address for another peer, dial strings that are aliases of the resolved address, the same requests as DialTptAddr directives (two live at once for different target peers), and clock jumps; every successful dial for X must return a link authenticated as X, every directive value must be a link to X, and after the last fault (X owns its address, impostor gone) a fresh request for X must be satisfied within five simulated minutes under a fair schedule.",
+ "C05": sim("Dialer node, wanted peer X and an impostor I on the QUIC world; the address of X is rebound to I and back before, during and after DialPeerAddr(X, addr) and EstablishLinkWithPeer(X) requests, with bounded packet faults, dial cancellation, overlapping dials of the same address for another peer, dial strings that are aliases of the resolved address, the same requests as DialTptAddr directives (two live at once for different target peers), the wanted peer also linked through a second endpoint of its own, and clock jumps; every successful dial for X must return a link authenticated as X, every directive value must be a link to X, and after the last fault (X owns its address, impostor gone) a fresh request for X must be satisfied within five simulated minutes under a fair schedule.",
             "5 (C05)", "safety invariant on dial results + bounded liveness after heal", "Trusts go1.26.8 + six-file runtime overlay (seeded select/map/timer order, no time-slice preemption, mutex waits durably blocked, mutex starvation clock frozen) and build-time rewritten go statements (goroutine starts are scheduling points), testing/cryptotest for repeatable crypto randomness, and the simulated datagram network as a faithful net.PacketConn; quic-go and crypto/tls internals run real, their goroutine interleavings are repeated per seed, not explored. websocket and WebRTC front-ends are not run."),
 }
 
